@@ -21,7 +21,8 @@ RULE = ("0-5 parameters, values in {int, float, None, str (incl. multi-character
 COMPONENTS = {"real": ["ECAgent.Batching.ParameterList.__init__ / add_parameter / remove_parameter / build"],
               "stub": ["none - the reference is an independent nested-loop product"]}
 PROBES = ["empty_collection", "no_parameters", "repeated_values", "string_value", "rebuild_after_mutation", "ndarray_value",
-          "range_value", "constructor_dict", "reject_nonstr", "reject_duplicate", "reject_unknown", "constructor_rejected"]
+          "range_value", "constructor_dict", "reject_nonstr", "reject_duplicate", "reject_unknown", "constructor_rejected",
+          "single_value_is_agent_class_or_object", "string_value_of_a_str_subclass"]
 TECHNIQUE = "deterministic simulation: seeded declare/remove/build histories with injected rejected declarations and caller-side mutation vs an independent nested-loop product"
 LEVEL_TEXT = ("Seeded search over declaration histories; every build must equal an independent nested-loop product (first-declared "
               "parameter slowest), be repeatable, return fresh dictionaries and leave declaration and caller's value objects "
@@ -36,14 +37,18 @@ SHRINK_LISTS = ["ops", "init"]
 def gen_val(rng):
     r = rng.random()
     n = rng.choice([0, 1, 1, 2, 2, 3, 4])
+    if r < 0.03:
+        return {"k": "agentclass", "v": rng.choice(["Agent", "Wolf", "agent_instance"])}
     if r < 0.12:
         return {"k": "int", "v": rng.randint(-5, 50)}
     if r < 0.18:
         return {"k": "float", "v": rng.choice([0.5, -1.25, 3.0])}
     if r < 0.22:
         return {"k": "none"}
-    if r < 0.34:
+    if r < 0.30:
         return {"k": "str", "v": rng.choice(["xyz", "a", "", "hello world"])}
+    if r < 0.34:
+        return {"k": "strsub", "v": rng.choice(["moore", "ab", ""]), "how": rng.choice(["subclass", "numpy"])}
     elems = [rng.choice([0, 1, 2, 3, 1, "s", "tt", None, 2.5, 1.0, True, 0.0, False, "-0.0", 2.0]) for _ in range(n)]
     if r < 0.6:
         return {"k": "list", "v": elems}
@@ -52,6 +57,25 @@ def gen_val(rng):
     if r < 0.87:
         return {"k": "range", "v": n}
     return {"k": "ndarray", "v": [rng.randint(0, 4) for _ in range(n)]}
+
+
+class Label(str):
+    """A string type of the user's own (like a str-valued Enum member)."""
+    __slots__ = ()
+
+
+class Wolf(__import__("ECAgent.Core", fromlist=["Agent"]).Agent):
+    pass
+
+
+_SINGLETONS = {}
+
+
+def _single(name):
+    from ECAgent.Core import Agent, Model
+    if name not in _SINGLETONS:
+        _SINGLETONS[name] = {"Agent": Agent, "Wolf": Wolf}.get(name) or Agent("lone", Model(seed=1))
+    return _SINGLETONS[name]
 
 
 def _el(v):
@@ -67,6 +91,10 @@ def decode(spec):
         return spec["v"]
     if k == "none":
         return None
+    if k == "agentclass":
+        return _single(spec["v"])
+    if k == "strsub":
+        return np.str_(spec["v"]) if spec.get("how") == "numpy" else Label(spec["v"])
     if k == "list":
         return list(spec["v"])
     if k == "tuple":
@@ -84,6 +112,10 @@ def as_list(spec):
         return [spec["v"]]
     if k == "none":
         return [None]
+    if k == "agentclass":
+        return [_single(spec["v"])]
+    if k == "strsub":
+        return [np.str_(spec["v"]) if spec.get("how") == "numpy" else Label(spec["v"])]
     if k == "range":
         return list(range(int(spec["v"])))
     if k == "ndarray":
@@ -157,7 +189,7 @@ def execute(sc, ctx):
             else:
                 raw[name] = v          # a repeated name keeps its first position and takes the last value (dict semantics)
                 specs[name] = spec
-            inputs.append((v, copy.deepcopy(v)))
+            inputs.append((v, v if spec["k"] == "agentclass" else copy.deepcopy(v)))
         ctx.probe("constructor_dict")
         if badkey:
             ctx.fault("reject.param")
@@ -182,7 +214,13 @@ def execute(sc, ctx):
         want = product([(n, as_list(s)) for n, s in decl])
         if len(want) > 400:
             return
-        got = ctx.expect_ok("build", pl.build)
+        from simkit.core import Stuck, deadline
+        try:
+            with deadline(3.0 if any(s["k"] == "agentclass" for _, s in decl) else 30.0):
+                got = ctx.expect_ok("build", pl.build)
+        except Stuck:
+            ctx.fail("build-does-not-terminate", f"{where}: build() still running after seconds; declared "
+                                                 f"{[(n, s['k'], s.get('v')) for n, s in decl]}")
         ctx.check(isinstance(got, list), "build-type", type(got).__name__)
         size = 1
         for _, s in decl:
@@ -210,6 +248,10 @@ def execute(sc, ctx):
                 ctx.probe("ndarray_value")
             if s["k"] == "range":
                 ctx.probe("range_value")
+            if s["k"] == "agentclass":
+                ctx.probe("single_value_is_agent_class_or_object")
+            if s["k"] == "strsub":
+                ctx.probe("string_value_of_a_str_subclass")
         if sum(1 for n_ in lens if n_ >= 2) >= 2 and disturbed:
             nontrivial = True
         shape.append(["build", lens, [s["k"] for _, s in decl]])
@@ -258,7 +300,7 @@ def execute(sc, ctx):
             else:
                 ctx.expect_ok("add", pl.add_parameter, name, v)
                 decl.append((name, spec))
-                inputs.append((v, copy.deepcopy(v)))
+                inputs.append((v, v if spec["k"] == "agentclass" else copy.deepcopy(v)))
                 shape.append(["add", spec["k"]])
             ctx.event("add", name, spec["k"])
         elif kind == "add_bad":
